@@ -622,7 +622,7 @@ def correspond(ctx):
     for pb, mo in zip(probs, outs):
         p = pb["p"]
         enc = real_encoder(p)
-        o = sc.run_guarded(lambda: enc(*pb["args"]), 20)
+        o = sc.run_guarded(lambda: enc(*pb["args"]), 5)
         ro = sc.str_outcome(o)
         ctx.count("encode:%s:%s" % (p, "ok" if ro.startswith("(ok") else ro.strip("()").replace(" ", ":")))
         ctx.count("board:%s" % ("square" if pb["h"] == pb["w"] else "non-square"))
@@ -656,14 +656,14 @@ def correspond(ctx):
         p = pb["p"]
         if kind == "dec":
             dec = real_decoder(p)
-            o = sc.run_guarded(lambda: dec(url), 20)
+            o = sc.run_guarded(lambda: dec(url), 5)
             ro = compass_outcome(o) if p == "compass" else sc.val_outcome(o)
             ctx.count("decode:%s:%s" % (p, "ok" if ro.startswith("(ok") else ro.strip("()").replace(" ", ":")))
             ctx.case({"op": "decode", "module": p, "url": url, "real": _short(ro, 200)}, ("dec", p, url) if ro.startswith("(ok") else None)
             if ro != mo:
                 ctx.disagree("decode-model-vs-code", module=p, url=url, args=_short(pb["args"], 1500), real=_short(ro, 800), model=_short(mo, 800))
         elif kind == "info":
-            o = sc.run_guarded(lambda: get_puzzle_info_from_url(url), 20)
+            o = sc.run_guarded(lambda: get_puzzle_info_from_url(url), 5)
             ro = info_outcome(o)
             ctx.case({"op": "info", "url": url, "real": _short(ro, 200)}, None)
             if ro != mo:
@@ -710,7 +710,7 @@ def correspond(ctx):
     outs = drv.run(lines)
     for (p, mu, how), mo in zip(ops, outs):
         dec = real_decoder(p)
-        o = sc.run_guarded(lambda: dec(mu), 20)
+        o = sc.run_guarded(lambda: dec(mu), 5)
         ro = compass_outcome(o) if p == "compass" else sc.val_outcome(o)
         ctx.count("mutated:%s:%s" % (p, "ok" if ro.startswith("(ok") else ro.strip("()").replace(" ", ":")))
         ctx.case({"op": "decode-mutated", "module": p, "url": mu, "how": how, "real": _short(ro, 200)}, ("mut", p, mu) if ro.startswith("(ok") else None)
@@ -779,15 +779,15 @@ def _correspond_legacy(ctx, rng, drv):
     for op, mo in zip(ops, outs):
         if op[0] == "encarr":
             _, arr, marker, empty, dim = op
-            o = sc.run_guarded(lambda: util.encode_array(arr, single_empty_marker=marker, empty=empty, dim=dim), 20)
+            o = sc.run_guarded(lambda: util.encode_array(arr, single_empty_marker=marker, empty=empty, dim=dim), 5)
             ro = sc.str_outcome(o)
         elif op[0] == "b2id":
             _, hh, ww, blocks = op
-            o = sc.run_guarded(lambda: util.blocks_to_block_id(hh, ww, blocks), 20)
+            o = sc.run_guarded(lambda: util.blocks_to_block_id(hh, ww, blocks), 5)
             ro = "(ok %s)" % _intgrid(o[1]) if o[0] == "ret" else ("diverge" if o[0] == "diverge" else "(err %s)" % o[1])
         else:
             _, gh, gw, ids = op
-            o = sc.run_guarded(lambda: util.encode_grid_segmentation(gh, gw, ids), 20)
+            o = sc.run_guarded(lambda: util.encode_grid_segmentation(gh, gw, ids), 5)
             ro = sc.str_outcome(o)
         ctx.count("legacy:%s:%s" % (op[0], "ok" if ro.startswith("(ok") else ro.strip("()").replace(" ", ":")))
         ctx.case({"op": op[0], "args": _short(op[1:], 300), "real": _short(ro, 200)}, (op[0], repr(op[1:])) if ro.startswith("(ok") else None)
@@ -806,7 +806,7 @@ def check_problem(pb):
     from cspuz.problem_serializer import get_puzzle_info_from_url
     p = pb["p"]
     h, w = pb["h"], pb["w"]
-    o = sc.run_guarded(lambda: real_encoder(p)(*pb["args"]), 20)
+    o = sc.run_guarded(lambda: real_encoder(p)(*pb["args"]), 5)
     if o[0] != "ret" or not isinstance(o[1], str):
         return (_sig(p, "not-encoded"), "the encoder %s on this problem" % ("raises " + o[1] if o[0] == "err" else "does not return a URL"))
     url = o[1]
@@ -818,7 +818,7 @@ def check_problem(pb):
         return (_sig(p, "width-height-order"), "URL %r of a board with height %d and width %d carries %s/%s (puzz.link order is width/height)"
                 % (url, h, w, m.group(3), m.group(4)))
     body = m.group(5)
-    o = sc.run_guarded(lambda: get_puzzle_info_from_url(url), 20)
+    o = sc.run_guarded(lambda: get_puzzle_info_from_url(url), 5)
     if o[0] != "ret" or o[1] != (PZNAME[p], h, w):
         return ("get_puzzle_info:name-height-width", "get_puzzle_info_from_url(%r) = %r, expected %r" % (url, o[1] if o[0] == "ret" else o, (PZNAME[p], h, w)))
     # the independent decoder reads the body back as the problem
@@ -831,7 +831,7 @@ def check_problem(pb):
         return (_sig(p, "body-not-pzpr"), "body %r of %r: an independent pzpr decoder reads %s, the problem is %s" % (body, url, _short(got, 300), _short(exp, 300)))
     # round trip
     if "expect" in pb:
-        o = sc.run_guarded(lambda: real_decoder(p)(url), 20)
+        o = sc.run_guarded(lambda: real_decoder(p)(url), 5)
         if o[0] != "ret":
             sig = "roundtrip"
             if p == "compass" and any(v >= 256 for c in pb["pos"] for v in c[2:]):
@@ -849,13 +849,13 @@ def check_legacy(arr2d, empty, h, w):
     """util.encode_array and Grid(OneOf(Spaces(empty,'g'), HexInt())) on identical data (ints 0..4095 and the empty marker)."""
     from cspuz.puzzle import util
     import cspuz.problem_serializer as ps
-    a = sc.run_guarded(lambda: util.encode_array(arr2d, empty=empty), 20)
-    b = sc.run_guarded(lambda: ps.serialize_problem(ps.Grid(ps.OneOf(ps.Spaces(empty, "g"), ps.HexInt())), arr2d, height=h, width=w), 20)
+    a = sc.run_guarded(lambda: util.encode_array(arr2d, empty=empty), 5)
+    b = sc.run_guarded(lambda: ps.serialize_problem(ps.Grid(ps.OneOf(ps.Spaces(empty, "g"), ps.HexInt())), arr2d, height=h, width=w), 5)
     if a != b:
         return ("legacy:encode_array-vs-combinator", "encode_array(%r, empty=%r) -> %r but Grid(OneOf(Spaces(%r,'g'),HexInt())) -> %r" % (arr2d, empty, a, empty, b))
     flat = sum(arr2d, [])
-    a = sc.run_guarded(lambda: util.encode_array(flat, empty=empty, dim=1), 20)
-    b = sc.run_guarded(lambda: ps.serialize_problem(ps.Seq(ps.OneOf(ps.Spaces(empty, "g"), ps.HexInt()), len(flat)), flat, height=1, width=1), 20)
+    a = sc.run_guarded(lambda: util.encode_array(flat, empty=empty, dim=1), 5)
+    b = sc.run_guarded(lambda: ps.serialize_problem(ps.Seq(ps.OneOf(ps.Spaces(empty, "g"), ps.HexInt()), len(flat)), flat, height=1, width=1), 5)
     if a != b:
         return ("legacy:encode_array-vs-combinator", "encode_array(%r, empty=%r, dim=1) -> %r but Seq(OneOf(Spaces(%r,'g'),HexInt()),%d) -> %r"
                 % (flat, empty, a, empty, len(flat), b))
@@ -865,8 +865,8 @@ def check_legacy(arr2d, empty, h, w):
 def check_segmentation(h, w, rooms):
     from cspuz.puzzle import util
     import cspuz.problem_serializer as ps
-    a = sc.run_guarded(lambda: util.encode_grid_segmentation(h, w, util.blocks_to_block_id(h, w, rooms)), 20)
-    b = sc.run_guarded(lambda: ps.serialize_problem(ps.Rooms(), rooms, height=h, width=w), 20)
+    a = sc.run_guarded(lambda: util.encode_grid_segmentation(h, w, util.blocks_to_block_id(h, w, rooms)), 5)
+    b = sc.run_guarded(lambda: ps.serialize_problem(ps.Rooms(), rooms, height=h, width=w), 5)
     if a != b:
         return ("legacy:encode_grid_segmentation-vs-Rooms", "encode_grid_segmentation(%d, %d, blocks_to_block_id(%r)) -> %r but Rooms() -> %r" % (h, w, rooms, a, b))
     return None
